@@ -226,13 +226,16 @@ def replay_trace_concrete(cfg: dict, inp: dict) -> dict:
     def run(c):
         cells = {n: [np.float64(x) for x in vals] for n, vals in inp['cells'].items()}
         m = lf._build_model(c, cells, lf._concrete_script(c, inp), dtype=float)
+        start0[0] = {n: [float(x) for x in m.__dict__['_' + n]] for n in m.names}
         out = lf._call_impl(m, c, min_iter=inp['min_iter'], tol=inp['tol'], offset=inp['offset'])
         return m, out
 
     L, t = cfg['L'], cfg['t']
     tc = t if t >= 0 else t + L
     bad = []
+    start0: list = [None]
     mT, oT = run(cfg)
+    initial = start0[0]
     mU, oU = run(dict(cfg, tracer=None))
     mO, oO = run(dict(cfg, tracer=False))
     for j in range(L):
@@ -269,7 +272,22 @@ def replay_trace_concrete(cfg: dict, inp: dict) -> dict:
         if list(tr.names) != list(tnames):
             bad.append(f'trace names {list(tr.names)} != {list(tnames)}')
             return {'impl': lf._pub(oT), 'ref': lf._pub(oU), 'bad': bad}
+        # pre-pass snapshots of the first solve of the period: 'start' = the cells as they were before the call,
+        # 'before' and 0 = the same with the endogenous cells copied from t+offset (added after C17_r11mut1, which the
+        # symbolic side saw but this replay could not confirm)
+        off = inp.get('offset') or 0
+        simple = cfg.get('trace_prelude') is None and not cfg.get('repeat') and isinstance(off, int) and 0 <= tc + off < L
+        seen_start = 0
         for col, lab in enumerate(want):
+            if lab == 'start':
+                seen_start += 1
+            if seen_start == 1 and (lab == 'start' or (lab in ('before', 0) and not isinstance(lab, bool) and simple)):
+                for row, n in enumerate(tnames):
+                    exp = initial[n][tc]
+                    if lab != 'start' and n in mT.endogenous:
+                        exp = initial[n][tc + off]
+                    if not lf._same_bits(float(tr.values[row, col]), float(exp)):
+                        bad.append(f'trace snapshot {lab!r} of {n} = {tr.values[row, col]!r}, value at that step = {exp!r}')
             if isinstance(lab, int) and lab >= 1:
                 snap = st['snaps'][passes[col]]
                 if cfg.get('twin') == 'snap_off' and passes[col] == 1 and 2 in st['snaps']:
